@@ -1,6 +1,7 @@
 /-
 Cycle model of `litedram/core/bankmachine.py` (BankMachine + _AddressSlicer) with the library blocks it
-instantiates: `stream.SyncFIFO` (unbuffered, depth ≥ 2: storage array, produce/consume pointers, level),
+instantiates: `stream.SyncFIFO` (unbuffered; depth ≥ 2: storage array, produce/consume pointers, level; depth 1: a
+`stream.Buffer` whose `level` is an undriven dummy; depth 0: a wire),
 `stream.Buffer` (PipeValid), three `tXXDController`s, the FSM with its `delayed_enter` chains.
 Not modelled: `cmd_buffer_buffered=True`.
 -/
@@ -105,9 +106,10 @@ structure Req where
 deriving Repr, Inhabited
 
 def step (c : Cfg) (s : State) (i : In) : State × Out :=
-  let laValid := s.level != 0
-  let laOut := s.mem[s.consume]!
-  let writable := s.level != c.depth
+  -- look-ahead stage: `stream.SyncFIFO(depth)`; depth 1 is a Buffer (its valid bit is kept in `level`, its payload in
+  -- `mem[0]`), depth 0 a combinational connection
+  let laValid := if c.depth == 0 then i.valid else s.level != 0
+  let laOut : Entry := if c.depth == 0 then ⟨i.we, i.addr⟩ else s.mem[s.consume]!
   let rowHit := s.row == rowFull c s.buf.addr
   let twtpR := s.twtp.ready; let trasR := s.tras.ready; let trcR := s.trc.ready
   let inReg := s.fsm == .regular
@@ -146,16 +148,21 @@ def step (c : Cfg) (s : State) (i : In) : State × Out :=
     | .trcd k => if k + 1 < c.tRCD - 1 then .trcd (k+1) else .regular
   let bufSrcReady := wdataReady || rdataValid
   let bufSinkReady := !s.bufValid || bufSrcReady
+  let writable := if c.depth == 0 then bufSinkReady else if c.depth == 1 then (s.level == 0 || bufSinkReady) else s.level != c.depth
+  let small := c.depth == 0 || c.depth == 1
   let doRead := laValid && bufSinkReady
   let doWrite := i.valid && writable
-  let mem' := if doWrite then s.mem.set! s.produce ⟨i.we, i.addr⟩ else s.mem
+  -- depth 1: the Buffer registers valid *and payload* whenever it advances
+  let mem' := if c.depth == 0 then s.mem else if c.depth == 1 then (if writable then s.mem.set! 0 ⟨i.we, i.addr⟩ else s.mem)
+              else if doWrite then s.mem.set! s.produce ⟨i.we, i.addr⟩ else s.mem
   let inc (p : Nat) := if p + 1 == c.depth then 0 else p + 1
-  let level' := if doWrite then (if !doRead then s.level + 1 else s.level) else if doRead then s.level - 1 else s.level
+  let level' := if c.depth == 0 then s.level else if c.depth == 1 then (if writable then (if i.valid then 1 else 0) else s.level)
+                else if doWrite then (if !doRead then s.level + 1 else s.level) else if doRead then s.level - 1 else s.level
   let accepted := cmdValid && i.ready
   let s' : State :=
     { mem := mem'
-      produce := if doWrite then inc s.produce else s.produce
-      consume := if doRead then inc s.consume else s.consume
+      produce := if small then s.produce else if doWrite then inc s.produce else s.produce
+      consume := if small then s.consume else if doRead then inc s.consume else s.consume
       level := level'
       bufValid := if bufSinkReady then laValid else s.bufValid
       buf := if bufSinkReady then laOut else s.buf
